@@ -83,6 +83,20 @@ Definition document (o : opts) (v : pv) : hnode :=
      El s_body [] [] [Txt [c_nl]; tree_view o v; Txt [c_nl]];
      Txt [c_nl]].
 
+(* a document assembled from several renderings written one after the other into the same Html object (Content.write, +):
+   the contents are concatenated, the shared style parts merged in writing order (first occurrence wins) *)
+Definition doc_node (ids : list style_id) (kids : list hnode) : hnode :=
+  El s_html [] []
+    [Txt [c_nl];
+     El s_head [] [] [Txt [c_nl]; RawEl s_style_tag (c_nl :: join_nl (map css_of ids) ++ [c_nl]); Txt [c_nl]];
+     Txt [c_nl];
+     El s_body [] [] (Txt [c_nl] :: kids ++ [Txt [c_nl]]);
+     Txt [c_nl]].
+Definition multi_styles (l : list (opts * pv)) : list style_id :=
+  dedup_styles [] (flat_map (fun ov => tvs (fst ov) (o_title (fst ov)) (o_name (fst ov)) (o_root_path (fst ov)) (o_include (fst ov)) (o_exclude (fst ov)) (snd ov)) l).
+Definition multi_document (l : list (opts * pv)) : hnode :=
+  doc_node (multi_styles l) (map (fun ov => tree_view (fst ov) (snd ov)) l).
+
 Definition document_tags : list str := [s_html; s_head; s_body; s_style_tag].
 
 (* wire: (3 opts pv) -> (3 rendered-document); everything else as Model.Html.run *)
@@ -92,6 +106,11 @@ Definition run_doc (c : tr) : tr :=
       match d_opts o, d_pv 100 v with
       | Some o', Some v' => L [I 3%Z; estr (render (document o' v'))]
       | _, _ => ebad
+      end
+  | L [I 11%Z; L items] =>
+      match dall (fun t => match t with L [o; v] => do o' <- d_opts o; do v' <- d_pv 100 v; Some (o', v') | _ => None end) items with
+      | Some l => L [I 11%Z; estr (render (multi_document l))]
+      | None => ebad
       end
   | _ => run_content c
   end.
